@@ -683,6 +683,80 @@ func c04SliceCall(c *Ctx, pp, tag string) {
 		ob(n+" appends the element at i of the sliced sequence", l.Header.Instrs[0].Pos(), okElem && elems == 1, fmt.Sprintf("%d element accesses in the loop", elems))
 	}
 	ob("has one element loop per sequence kind", f.Pos(), loops == 2, fmt.Sprintf("%d loops driven by SliceIndices' first/count", loops))
+	// the list result is a fresh list: never the source list or a sub-slice sharing its storage
+	kList, _ := constInt(t.SSA[pAst].Const("List").Value)
+	nRes := 0
+	checkFresh := func(v ssa.Value, pos token.Pos) {
+		nRes++
+		bad := ""
+		seen := map[ssa.Value]bool{}
+		var walk func(v ssa.Value)
+		walk = func(v ssa.Value) {
+			if v == nil || seen[v] {
+				return
+			}
+			seen[v] = true
+			switch x := v.(type) {
+			case *ssa.MakeInterface:
+				walk(x.X)
+			case *ssa.ChangeType:
+				walk(x.X)
+			case *ssa.Phi:
+				for _, e := range x.Edges {
+					walk(e)
+				}
+			case *ssa.Call:
+				if builtinName(x) == "append" {
+					walk(x.Call.Args[0])
+					return
+				}
+				bad = "result of " + path(x)
+			case *ssa.MakeSlice:
+			case *ssa.Const:
+			case *ssa.Slice:
+				if al, ok := x.X.(*ssa.Alloc); ok && al.Heap {
+					return // slice literal
+				}
+				bad = "sub-slice " + path(x.X) + "[…:…] shares the backing array of its operand"
+			default:
+				bad = "value " + path(v) + " is not freshly allocated"
+			}
+		}
+		walk(v)
+		ob(fmt.Sprintf("list result #%d is a fresh list", nRes), pos, bad == "", "a slice of a list is a new list; a write through it must not be visible through the source. "+bad)
+	}
+	allInstrs(f, func(in ssa.Instruction) {
+		switch x := in.(type) {
+		case *ssa.Return:
+			if pp == pRT && len(x.Results) == 3 {
+				if k, isC := constInt(x.Results[1]); isC && k == kList {
+					checkFresh(x.Results[0], x.Pos())
+				}
+			}
+		case *ssa.Store:
+			// v2: V{result, ast.List} literal: the store of field T == List identifies the literal, field V its value
+			if pp != pRT2 {
+				return
+			}
+			fa, ok := x.Addr.(*ssa.FieldAddr)
+			if !ok || fa.Field != 1 {
+				return
+			}
+			if k, isC := constInt(x.Val); !isC || k != kList {
+				return
+			}
+			for _, ref := range *fa.X.Referrers() {
+				if fv, ok := ref.(*ssa.FieldAddr); ok && fv.Field == 0 {
+					for _, r2 := range *fv.Referrers() {
+						if st, ok := r2.(*ssa.Store); ok {
+							checkFresh(st.Val, st.Pos())
+						}
+					}
+				}
+			}
+		}
+	})
+	ob("has a list-tagged result", f.Pos(), nRes >= 1, fmt.Sprintf("%d list-tagged results, each checked for freshness", nRes))
 }
 
 func reachesInstr(from *ssa.BasicBlock, to ssa.Instruction) bool {
